@@ -121,7 +121,9 @@ QConcInit(Threads, sh) ==
 
 QConcCall(g, t, c) == [g EXCEPT !.cop[t] = c.op]
 QConcOp(g, t, e) ==
-  CASE e.o = "map" /\ e.op = "insert" -> [g EXCEPT !.pushing[t] = e.v.id, !.pushed[e.v.id] = @ + 1]
+  \* (an insert whose key the observer cannot resolve to an order - a map keyed by something else than the order id -
+  \*  carries no order: it is model drift, not something the ghost can account)
+  CASE e.o = "map" /\ e.op = "insert" /\ IsOrder(e.v) /\ e.v.id \in Ids -> [g EXCEPT !.pushing[t] = e.v.id, !.pushed[e.v.id] = @ + 1]
     [] e.o = "tickets" /\ e.op = "push" -> [g EXCEPT !.pushing[t] = 0]
     [] e.o = "tickets" /\ e.op = "pop" -> [g EXCEPT !.popped[t] = e.r]
     [] e.o = "map" /\ e.op = "remove" -> [g EXCEPT !.popped[t] = 0]
